@@ -123,6 +123,11 @@ func (s *Sim) Cancel(e *Event) {
 
 // Fail records a violation; the run stops at the next driver step.
 func (s *Sim) Fail(prop, rule, format string, a ...any) {
+	for _, v := range s.viol {
+		if v.Property == prop && v.Rule == rule {
+			return // one report per rule and run is enough
+		}
+	}
 	s.viol = append(s.viol, Violation{Property: prop, Rule: rule, Msg: fmt.Sprintf(format, a...), Step: s.Step})
 }
 
